@@ -1002,7 +1002,8 @@ def _flip_signed(qual: str, index: int = 0):
 
 CONTROLS = [
     {"rule": "C05.zero_is_present", "name": "a sequence of 0 counts as absent", "module": "btclib.psbt.psbt_in",
-     "edit": lambda ctx: M.sub_module_expr(ctx, "btclib.psbt.psbt_in", lambda n: isinstance(n, ast.Constant) and n.value == "sequence" and isinstance(parent(n), ast.Set), "'sequence_'")},
+     "edit": lambda ctx: M.sub_module_expr(ctx, "btclib.psbt.psbt_in", lambda n: isinstance(n, ast.Constant) and n.value == "sequence" and isinstance(parent(n), ast.Set)
+                                           and any(isinstance(e, ast.Constant) and e.value == "required_time_lock_time" for e in parent(n).elts) and len(parent(n).elts) == 4, "'sequence_'")},
     {"rule": "C05.reversal_parity", "name": "GetCFCheckpt.parse takes the stop hash as it is on the wire", "module": "btclib.p2p.block_filters",
      "edit": lambda ctx: M.sub_expr(ctx, "btclib.p2p.block_filters.GetCFCheckpt.parse", lambda n: isinstance(n, ast.Subscript) and isinstance(n.slice, ast.Slice) and n.slice.step is not None,
                                     lambda n: norm(n.value))},
